@@ -15,7 +15,7 @@ func main() {
 		gen.Pool()
 		n := r.Pick(400, 8000)
 		st := sh.Batch(r, "C09", "hist", n, 8, func(c *ev.Case, i int) sh.Config {
-			return sh.Config{NoUpstream: i%2 == 0, Steps: 8 + c.Rand.Intn(25), Windows: []int{sh.WCurrent, sh.WCurrent, sh.WCurrent, sh.WForever, sh.WPast}, KIDs: sh.AllKIDs, Preload: i%4 != 3, LockOps: i%9 == 0,
+			return sh.Config{NoUpstream: i%2 == 0, Steps: 8 + c.Rand.Intn(25), Windows: []int{sh.WCurrent, sh.WCurrent, sh.WCurrent, sh.WForever, sh.WPast}, KIDs: sh.AllKIDs, FirstKID: sh.AllKIDs[(i/2)%len(sh.AllKIDs)], Preload: i%4 != 3, LockOps: i%9 == 0,
 				Weights: map[string]int{"direct-add": 10, "add": 10, "list": 10, "signers": 10, "sign": 12, "remove": 6, "add-hard-cert": 8}}
 		}, func(e *sh.Engine, _ sh.Stats, st sh.Stats) bool {
 			return st.Hidden > 0 || (!e.Cfg.NoUpstream && st.ListedIdents > 0)
